@@ -18,7 +18,10 @@
 //	after the schedule     = min(burnout rate, balance of the rewards pool before the block)
 //
 // "distributed till last cycle" of a year is what was credited in that year up to the end of the
-// last completed cycle. The integer floor of the forecast equals the float expression
+// last completed cycle. A genesis that carries an exported reward state keeps the reward years of
+// the exported chain (their closes are not laid out again from block 1) and states what each year
+// had distributed, in total and till the last completed cycle, at the export (Import); cycles and
+// their durations are counted from the new chain's block 1. The integer floor of the forecast equals the float expression
 // int64(float64(a)/float64(b)) for a < 2^53 (DESIGN section 9).
 package c13
 
